@@ -365,6 +365,13 @@ let () =
                  let k = kind_of_text (snd pick) in
                  let cls = class_of_kind k in
                  let cls = if List.mem k gated_kinds then cls ^ "+C12" else cls in
+                 (* the step of a connection that has ended (its task was dropped with this request still queued, or
+                    the event is a disconnect): what peers are told / what is released is C09's clause as well *)
+                 let ending = (match p.ev with
+                   | Message (c, _) -> Hashtbl.mem dropped (int_of_n c)
+                   | ConnectionShutdown _ | ShutdownConnection _ | DropTask _ | ShutdownBroker -> true
+                   | _ -> false) in
+                 let cls = if ending && not (String.length cls >= 3 && (let rec has i = i + 3 <= String.length cls && (String.sub cls i 3 = "C09" || has (i + 1)) in has 0)) then cls ^ "+C09" else cls in
                  report (Printf.sprintf "%s:outputs-differ(%s)" cls k) line
                    (String.concat "; " (List.map (fun (c, t) -> Printf.sprintf "%d:%s" c t) a))
                    (String.concat "; " (List.map (fun (c, t) -> Printf.sprintf "%d:%s" c t) b))
